@@ -44,7 +44,10 @@ RULE = ("(A) every ranked list of n<=7 (quick) / n<=8 (thorough) positions, each
         "always, brew(models returned by the first run) reproduces scores and routing. Monte-Carlo: FDP among the targets "
         "with q<=alpha in targets.psms / targets.peptides joined with the ground truth; 5 / 16 large datasets (1800-2600 PSMs, "
         "rows shuffled, ties kept; brew stage checked by the C02 oracle alone, the extracted split model being too slow there) must keep the pooled FDP below alpha+0.04 (alpha=0.1) / alpha+0.05 (alpha=0.2) at PSM level, +0.06 / +0.08 at peptide level; all "
-        "datasets: alarm on a gross excess only. ensemble=True cases are a known finding. non-trivial = fdp: list has a null target and a null decoy, n>=3; tie lists: a tie group holds a target and a "
+        "datasets: alarm on a gross excess only. ensemble=True cases are a known finding: the run is compared with the extracted model of the "
+        "ensemble branch (Model/Brew.v bw_brew_scores_ens, R2.22: models in fold order, every model scores every row, training sets, the exact "
+        "mean of the fold models' recorded decision values, result files) and counts as that finding only when the violated held-out "
+        "property / the leak count are the ONLY disagreement. non-trivial = fdp: list has a null target and a null decoy, n>=3; tie lists: a tie group holds a target and a "
         "decoy; pipeline: brew returned scores and result files were written")
 ASSUMPTIONS = [
     "exchangeability of null targets and decoys is the property's premise (simulated, not proved)",
@@ -936,5 +939,12 @@ def finding_key(c, m, i):
     """ensemble=True scores every PSM with the mean of ALL fold models, k-1 of which were trained on it"""
     if c.get("fn") == "pipeline" and c.get("ensemble"):
         if i is not None and i[0] == "ok" and i[1].get("leaked", 0) > 0:
-            return ENSEMBLE_KEY
+            # R2.22: the ensemble branch is in the extracted model (Model/Brew.v bw_brew_scores_ens): the run must agree with it
+            # on everything the model predicts — fold numbers of the returned models, every model scores every row, training
+            # sets, the exact averaged scores, result files — and may differ in the violated held-out property (and the leak
+            # count) only.  Any other disagreement is NOT this finding.
+            if m is None or m[0] != "ok":
+                return ENSEMBLE_KEY if m is None else None
+            if c02.same_ens(c, m, i) and all(lib.jsonable(m[1].get(k)) == lib.jsonable(i[1].get(k)) for k in PIPE_KEYS if k != "leaked"):
+                return ENSEMBLE_KEY
     return None
